@@ -37,9 +37,11 @@ Fixture(k, c) ==
   LET base == [Market0(c) EXCEPT !.pool = P2(500, 5000)]
       oi(l, s) == [base EXCEPT !.oi = P4(l, 0, 0, s), !.oit = P4(l \div 10, 0, 0, s \div 10)]
   IN CASE k = 1 -> [oi(100, 100) EXCEPT !.ip = 0]
+       \* 2: impact pool worth less than the raw positive impact of an improving open but more than
+       \*    max-positive-factor * size (and max-negative-factor * size) for the small cap pairs
        \* 2, 3, 6: funding / borrowing have accrued before the round trip -- cumulative per-size indices that
        \* differ between the long-token and short-token entries and between the sides (either order)
-       [] k = 2 -> [oi(200, 50)  EXCEPT !.ip = 30, !.fps = P4(3, 1, 2, 5), !.cfps = P4(1, 4, 6, 2), !.bf = P2(3, 2)]
+       [] k = 2 -> [oi(200, 50)  EXCEPT !.ip = 5, !.fps = P4(3, 1, 2, 5), !.cfps = P4(1, 4, 6, 2), !.bf = P2(3, 2)]
        [] k = 3 -> [oi(50, 200)  EXCEPT !.ip = 30, !.fps = P4(0, 4, 3, 0), !.cfps = P4(5, 2, 0, 3), !.bf = P2(0, 4)]
        [] k = 4 -> [oi(80, 100)  EXCEPT !.ip = 1]
        [] k = 5 -> [oi(0, 0)     EXCEPT !.ip = 5]
